@@ -329,7 +329,7 @@ static void driveSteps(const std::string& id, Mx& matrix, QpSparseArray<F> const
 		RealMatrix const& linear, double C, double eps, long shrinkPeriod, long nsteps, bool randsel, unsigned long seed) {
 	typedef Access<P> Ac;
 	P q(matrix, M, data.labels(), linear, C);
-	q.setShrinking(shrinkPeriod > 0);
+	q.setShrinking(shrinkPeriod != 0);
 	std::mt19937 rng(seed);
 	std::size_t cp = q.m_cardP;
 	dumpState(q, "ST", id);
@@ -370,7 +370,10 @@ static void driveSteps(const std::string& id, Mx& matrix, QpSparseArray<F> const
 		}
 		std::printf("\n");
 		dumpState(q, "ST", id);
-		if (shrinkPeriod > 0 && (it % shrinkPeriod) == shrinkPeriod - 1) {
+		// shrinkPeriod < 0: the schedule of QpSolver::solve (after the first step, then every max(1000, dimensions) steps)
+		bool doShrink = shrinkPeriod > 0 ? ((it % shrinkPeriod) == shrinkPeriod - 1)
+			: (shrinkPeriod < 0 && (it % (long)std::max<std::size_t>(1000, q.dimensions())) == 0);
+		if (doShrink) {
 			q.shrink(eps);
 			std::printf("EV %s shrink\n", id.c_str()); dumpState(q, "ST", id);
 		}
